@@ -298,3 +298,207 @@ Qed.
 
 Lemma run_inv ops : forall s, Inv s -> Inv (run ops s).
 Proof. induction ops as [|o ops IH]; intros s I; cbn; [exact I|]. apply IH, step_inv, I. Qed.
+
+(** * what a step does to the Tells and to the queue *)
+
+Definition tick_new (dt : Z) (s : sched) : list firing :=
+  flat_map (fun kj => fst (advance (dead s) (now s) (now s + Z.max dt 0) (snd kj))) (map_to_list (tbl s)).
+
+Definition is_tick (o : op) : bool := match o with OTick _ => true | _ => false end.
+
+Lemma cancel_fired s a ref : fired (fst (cancel s a ref)) = fired s.
+Proof. unfold cancel. destruct (jk_of s a !! ref); reflexivity. Qed.
+Lemma cancel_now s a ref : now (fst (cancel s a ref)) = now s.
+Proof. unfold cancel. destruct (jk_of s a !! ref); reflexivity. Qed.
+Lemma cancel_nid s a ref : nid (fst (cancel s a ref)) = nid s.
+Proof. unfold cancel. destruct (jk_of s a !! ref); reflexivity. Qed.
+Lemma cancel_spin s a ref : spin (fst (cancel s a ref)) = spin s.
+Proof. unfold cancel. destruct (jk_of s a !! ref); reflexivity. Qed.
+Lemma cancel_dead s a ref : dead (fst (cancel s a ref)) = dead s.
+Proof. unfold cancel. destruct (jk_of s a !! ref); reflexivity. Qed.
+
+Ltac step_cases o s :=
+  unfold step; destruct (spin s) eqn:Espin; [|
+  destruct o as [a recv ref d p|a recv ref i p|a recv ref v p|a ref|a|a ref|a|a|dt|dt|l]; unfold if_alive, is_dead;
+    try (destruct (bool_decide (a ∈ dead s)) eqn:Ed; [|apply bool_decide_eq_false in Ed]) ].
+
+Lemma step_fired o s :
+  fired (fst (step o s)) =
+  fired s ++ (if spin s then [] else match o with OTick dt => tick_new dt s | _ => [] end).
+Proof.
+  step_cases o s; cbn [fst]; try (rewrite app_nil_r; reflexivity); try reflexivity.
+  - destruct v; cbn; rewrite app_nil_r; reflexivity.
+  - rewrite cancel_fired, app_nil_r. reflexivity.
+Qed.
+
+Lemma step_nid_mono o s : (nid s <= nid (fst (step o s)))%N.
+Proof.
+  step_cases o s; cbn [fst]; cbn; try lia.
+  - destruct v; cbn; lia.
+  - rewrite cancel_nid. lia.
+Qed.
+
+Lemma step_now_mono o s : now s <= now (fst (step o s)).
+Proof.
+  step_cases o s; cbn [fst]; cbn; try lia.
+  - destruct v; cbn; lia.
+  - rewrite cancel_now. lia.
+Qed.
+
+Lemma step_dead_mono o s (z : bytes) : z ∈ dead s -> z ∈ dead (fst (step o s)).
+Proof.
+  step_cases o s; cbn [fst]; cbn; try tauto.
+  - destruct v; cbn; tauto.
+  - rewrite cancel_dead. tauto.
+  - set_solver.
+Qed.
+
+(** a queued job after a step is a queued job from before (same identity, run time not earlier), or the
+    job of the scheduling call this step is *)
+Lemma step_tbl_origin o s k j' :
+  tbl (fst (step o s)) !! k = Some j' ->
+  (exists j, tbl s !! k = Some j /\ same_job j j' /\ j_next j <= j_next j') \/ j_id j' = nid s.
+Proof.
+  assert (Hold : forall t : jobtbl, t = tbl s -> t !! k = Some j' ->
+            (exists j, tbl s !! k = Some j /\ same_job j j' /\ j_next j <= j_next j') \/ j_id j' = nid s).
+  { intros t -> H. left. exists j'. split; [exact H|]. split; [apply same_job_refl|lia]. }
+  step_cases o s; cbn [fst]; try (apply Hold; reflexivity).
+  - intros H. apply schedule_tbl_lookup in H as [H|(_ & _ & ->)]; [eapply Hold; eauto|right; reflexivity].
+  - intros H. apply schedule_tbl_lookup in H as [H|(_ & _ & ->)]; [eapply Hold; eauto|right; reflexivity].
+  - destruct v; cbn [fst]; [|apply Hold; reflexivity].
+    intros H. apply schedule_tbl_lookup in H as [H|(_ & _ & ->)]; [eapply Hold; eauto|right; reflexivity].
+  - unfold cancel. destruct (jk_of s a !! ref); cbn [fst]; [|apply Hold; reflexivity].
+    cbn. intros H. apply lookup_delete_Some in H as [_ H]. eapply Hold; eauto.
+  - cbn. intros H. apply delete_all_lookup_Some in H as [H _]. eapply Hold; eauto.
+  - cbn. intros H. apply delete_all_lookup_Some in H as [H _]. eapply Hold; eauto.
+  - cbn. intros H. apply delete_all_lookup_Some in H as [H _]. eapply Hold; eauto.
+  - intros H. apply tick_tbl_Some in H. left. exact H.
+Qed.
+
+Lemma step_spin_frozen o s : spin s = true -> fst (step o s) = s.
+Proof. intros H. unfold step. rewrite H. reflexivity. Qed.
+Lemma run_spin_frozen ops s : spin s = true -> run ops s = s.
+Proof. induction ops as [|o ops IH]; intros H; cbn; [reflexivity|]. rewrite step_spin_frozen by exact H. auto. Qed.
+
+Lemma step_spin_mono o s : spin s = true -> spin (fst (step o s)) = true.
+Proof. intros H. rewrite step_spin_frozen; assumption. Qed.
+Lemma run_spin_false_prefix ops1 ops2 s : spin (run (ops1 ++ ops2) s) = false -> spin (run ops1 s) = false.
+Proof.
+  revert s. induction ops1 as [|o ops IH]; intros s; cbn.
+  - intros H. destruct (spin s) eqn:E; [|reflexivity]. rewrite run_spin_frozen in H by exact E. congruence.
+  - apply IH.
+Qed.
+Lemma run_app ops1 ops2 s : run (ops1 ++ ops2) s = run ops2 (run ops1 s).
+Proof. revert s. induction ops1; intros s; cbn; auto. Qed.
+
+Lemma run_nid_mono ops s : (nid s <= nid (run ops s))%N.
+Proof. revert s. induction ops as [|o ops IH]; intros s; cbn; [lia|]. pose proof (step_nid_mono o s). pose proof (IH (fst (step o s))). lia. Qed.
+Lemma run_dead_mono ops s a : a ∈ dead s -> a ∈ dead (run ops s).
+Proof. revert s. induction ops as [|o ops IH]; intros s; cbn; [tauto|]. intros H. apply IH, step_dead_mono, H. Qed.
+
+(** * the Tells of one scheduling call *)
+
+Lemma fires_of_app x s l s' : fired s' = fired s ++ l ->
+  fires_of x s' = fires_of x s ++ List.filter (fun f => (f_id f =? x)%N) l.
+Proof. unfold fires_of. intros ->. apply List.filter_app. Qed.
+
+Lemma filter_flat_map {A B} (P : B -> bool) (F : A -> list B) l :
+  List.filter P (flat_map F l) = flat_map (fun a => List.filter P (F a)) l.
+Proof. induction l as [|a l IH]; cbn; [reflexivity|]. rewrite List.filter_app, IH. reflexivity. Qed.
+
+Lemma flat_map_nil {A B} (G : A -> list B) l : (forall b, In b l -> G b = []) -> flat_map G l = [].
+Proof. induction l as [|b l IH]; cbn; intros H; [reflexivity|]. rewrite H by auto. cbn. apply IH. auto. Qed.
+
+Lemma flat_map_single {A B} (G : A -> list B) l a :
+  List.NoDup l -> In a l -> (forall b, In b l -> b <> a -> G b = []) -> flat_map G l = G a.
+Proof.
+  induction l as [|b l IH]; cbn; [tauto|]. intros Hnd [->|Hin] H.
+  - inversion Hnd; subst. rewrite flat_map_nil; [apply app_nil_r|].
+    intros b Hb. apply H; [auto|]. intros ->. contradiction.
+  - inversion Hnd; subst. rewrite (H b); [|auto|intros ->; contradiction]. cbn. apply IH; auto.
+Qed.
+
+Lemma filter_all {A} (P : A -> bool) l : (forall a, In a l -> P a = true) -> List.filter P l = l.
+Proof. induction l as [|a l IH]; cbn; intros H; [reflexivity|]. rewrite H by auto. f_equal. apply IH. auto. Qed.
+Lemma filter_none {A} (P : A -> bool) l : (forall a, In a l -> P a = false) -> List.filter P l = [].
+Proof. induction l as [|a l IH]; cbn; intros H; [reflexivity|]. rewrite H by auto. apply IH. auto. Qed.
+
+Definition Gone (x : N) (s : sched) : Prop := forall k j, tbl s !! k = Some j -> j_id j <> x.
+
+Lemma advance_fires_id dd lo hi j f : lo <= hi -> In f (fst (advance dd lo hi j)) -> f_id f = j_id j.
+Proof. intros Hle H. apply advance_fires in H as (t & -> & _); [reflexivity|exact Hle]. Qed.
+
+Lemma tick_new_gone x dt s : Gone x s -> List.filter (fun f => (f_id f =? x)%N) (tick_new dt s) = [].
+Proof.
+  intros G. unfold tick_new. rewrite filter_flat_map. apply flat_map_nil. intros (k, j) Hin.
+  apply elem_of_list_In, elem_of_map_to_list in Hin. apply filter_none. intros f Hf. cbn in Hf.
+  apply advance_fires_id in Hf; [|lia]. apply N.eqb_neq. rewrite Hf. exact (G _ _ Hin).
+Qed.
+
+Lemma tick_new_job x dt s k j : Inv s -> tbl s !! k = Some j -> j_id j = x ->
+  List.filter (fun f => (f_id f =? x)%N) (tick_new dt s) = fst (advance (dead s) (now s) (now s + Z.max dt 0) j).
+Proof.
+  intros I Hj Hx. unfold tick_new. rewrite filter_flat_map.
+  rewrite (flat_map_single _ _ (k, j)).
+  - cbn. apply filter_all. intros f Hf. apply advance_fires_id in Hf; [|lia]. apply N.eqb_eq. congruence.
+  - apply NoDup_ListNoDup, NoDup_map_to_list.
+  - apply elem_of_list_In, elem_of_map_to_list. exact Hj.
+  - intros (k', j') Hin Hne. apply elem_of_list_In, elem_of_map_to_list in Hin. cbn.
+    apply filter_none. intros f Hf. apply advance_fires_id in Hf; [|lia]. apply N.eqb_neq. rewrite Hf. intros Hid.
+    apply Hne. assert (k' = k) by (eapply (inv_uniq _ I); eauto; congruence). subst k'. congruence.
+Qed.
+
+Lemma step_gone x o s : Inv s -> (x < nid s)%N -> Gone x s ->
+  Gone x (fst (step o s)) /\ fires_of x (fst (step o s)) = fires_of x s.
+Proof.
+  intros I Hx G. split.
+  - intros k j' H. apply step_tbl_origin in H as [(j & Hj & (Hid & _) & _)|Hid]; [rewrite Hid; exact (G _ _ Hj)|lia].
+  - rewrite (fires_of_app x s _ _ (step_fired o s)). destruct (spin s); [apply app_nil_r|].
+    destruct o; try apply app_nil_r. rewrite tick_new_gone by exact G. apply app_nil_r.
+Qed.
+
+Lemma run_gone x ops : forall s, Inv s -> (x < nid s)%N -> Gone x s ->
+  Gone x (run ops s) /\ fires_of x (run ops s) = fires_of x s.
+Proof.
+  induction ops as [|o ops IH]; intros s I Hx G; cbn; [auto|].
+  destruct (step_gone x o s I Hx G) as [G' E]. pose proof (step_nid_mono o s).
+  destruct (IH _ (step_inv o s I) ltac:(lia) G') as [G'' E']. split; [exact G''|congruence].
+Qed.
+
+(** identity of the job of scheduling call [x] *)
+Record Track (x : N) (a recv ref : bytes) (p : N) (tr : trig) (s : sched) : Prop := mkTrack {
+  tr_lt : (x < nid s)%N;
+  tr_job : forall k j, tbl s !! k = Some j -> j_id j = x ->
+           j_owner j = a /\ j_recv j = recv /\ j_ref j = ref /\ j_payload j = p /\ j_trig j = tr;
+  tr_fir : forall f, In f (fired s) -> f_id f = x ->
+           f_owner f = a /\ f_recv f = recv /\ f_ref f = ref /\ f_payload f = p;
+}.
+
+Lemma step_track x a recv ref p tr o s :
+  Track x a recv ref p tr s -> Track x a recv ref p tr (fst (step o s)).
+Proof.
+  intros T. constructor.
+  - pose proof (tr_lt _ _ _ _ _ _ _ T). pose proof (step_nid_mono o s). lia.
+  - intros k j' H Hid. pose proof (tr_lt _ _ _ _ _ _ _ T).
+    apply step_tbl_origin in H as [(j & Hj & (Hi & Ho & Hr & Hf & Hp & Ht) & _)|Hn]; [|lia].
+    rewrite Ho, Hr, Hf, Hp, Ht. apply (tr_job _ _ _ _ _ _ _ T _ _ Hj). congruence.
+  - intros f H Hid. rewrite step_fired in H. apply in_app_iff in H as [H|H]; [apply (tr_fir _ _ _ _ _ _ _ T _ H Hid)|].
+    destruct (spin s); [destruct H|]. destruct o; try destruct H.
+    unfold tick_new in H. apply in_flat_map in H as ((k, j) & Hin & Hf). apply elem_of_list_In, elem_of_map_to_list in Hin.
+    cbn in Hf. apply advance_fires in Hf as (t & -> & _); [|lia]. cbn in Hid |- *.
+    destruct (tr_job _ _ _ _ _ _ _ T _ _ Hin Hid) as (? & ? & ? & ? & ?). auto.
+Qed.
+
+Lemma run_track x a recv ref p tr ops : forall s,
+  Track x a recv ref p tr s -> Track x a recv ref p tr (run ops s).
+Proof. induction ops as [|o ops IH]; intros s T; cbn; [exact T|]. apply IH, step_track, T. Qed.
+
+Lemma schedule_track s a recv ref p tr nx : Inv s ->
+  Track (nid s) a recv ref p tr (schedule s a recv ref p tr nx).
+Proof.
+  intros I. constructor.
+  - cbn. lia.
+  - intros k j H Hid. apply schedule_tbl_lookup in H as [H|(_ & _ & ->)]; [|cbn; auto].
+    pose proof (inv_idlt _ I _ _ H). lia.
+  - intros f H Hid. cbn in H. apply (inv_fired _ I) in H. lia.
+Qed.
